@@ -340,6 +340,11 @@ def one_relational(rnd, acc, api):
                 if not any(row_eq(x, e, tol=True) for x in r):
                     fail('measure', f'{fn} over categories {cats}: expected row {e!r} not in {r!r:.400}')
                     return
+                # count, min, max and average are exact: the average is the correctly rounded mean (inside [min, max], finite when they are)
+                exact = [f for f, which in ((out, fn), ('out2', fn2 if two else None)) if which in ('count', 'min', 'max', 'average')]
+                if exact and not any(all(refval.veq(x.get(c), e.get(c)) for c in cats) and all(x.get(f) == e.get(f) for f in exact) for x in r):
+                    fail('measure', f'{[fn, fn2 if two else None]} over categories {cats}: expected exactly {({f: e.get(f) for f in exact})!r} in {r!r:.400}')
+                    return
         elif kind == 'join':
             rf = rnd.sample(['a', 'b', 'c', 'a2', 'a3', 'z'], rnd.randint(1, 4))
             right = gen_table(rnd, rf, rnd.randint(0, 6), keypool)
@@ -535,6 +540,17 @@ def one_csv(rnd, acc, api):
     cols, rows = gen_typed_table(rnd)
     header = ','.join(name for name, _ in cols)
     lines = [header] + [','.join(csv_cell(r[name]) for name, _ in cols) for r in rows]
+    if len(rows) >= 2 and len(cols) >= 2 and rnd.random() < 0.15:
+        # a short FIRST data row: its trailing fields are absent - the columns are typed by the rows that do have them
+        k = rnd.randint(1, len(cols) - 1)
+        lines[1] = ','.join(csv_cell(rows[0][name]) for name, _ in cols[:len(cols) - k])
+        # (a short line whose remaining text is empty would be a blank line: keep at least one written cell)
+        if lines[1].strip() == '':
+            lines[1] = ','.join(csv_cell(rows[0][name]) for name, _ in cols)
+        else:
+            for name, _ in cols[len(cols) - k:]:
+                rows[0][name] = None
+            acc.count('csv_short_first_rows')
     text = '\n'.join(lines)
     case = {'csv': text}
     acc.case(text, len(rows) >= 2)
